@@ -77,7 +77,7 @@ EXTRA = [
     ("inner[expr]", arr(INNER, "X"), None, "dyn"), ("char[expr]", arr(CHAR, "X"), None, "dyn"),
     ("wchar[expr]", arr(WCHAR, "X"), None, "dyn"), ("E[expr]", arr(E16, "X"), None, "dyn"), ("u24[expr]", arr(U24, "X"), None, "dyn"),
     ("i24[EOF]", arr(I24, "EOF"), None, "last"), ("inner[EOF]", arr(INNER, "EOF"), None, "last"), ("E[EOF]", arr(E16, "EOF"), None, "last"),
-    ("wchar[EOF]", arr(WCHAR, "EOF"), None, "last"), ("u8[EOF]", arr(U8, "EOF"), None, "last"),
+    ("wchar[EOF]", arr(WCHAR, "EOF"), None, "last"), ("u8[EOF]", arr(U8, "EOF"), None, "last"), ("inner2[EOF]", arr(INNER2, "EOF"), None, "last"),
 ]
 
 FULL = CORE + EXTRA
@@ -125,6 +125,9 @@ CURATED = [
     ("same-name-arrays", [["a", arr(I48, 2), None], ["b", arr(U48, 2), None], ["c", arr(I48, 1), None]]),
     ("same-tag-inline-a", [["h", U8, None], ["e", arr(["struct", "entry", [["a", U8, None]], "tag"], 3), None],
                            ["f", arr(["struct", "entry", [["x", U32, None], ["y", U16, None]], "tag"], 3), None], ["t", U8, None]]),
+    ("bits-enum-then-block", [["a", E16, 4], ["b", E16, 12], ["c", U32, None], ["d", F8, 3], ["e", F8, 5], ["f", U16, None]]),
+    ("big-count", [["n", U8, None], ["d", arr(U16, ["expr", ["bin", "*", ["bin", "&", ["id", "n"], ["num", 1]], ["num", 300]]]), None], ["t", U8, None]]),
+    ("big-count-int", [["n", U8, None], ["d", arr(I24, ["expr", ["bin", "*", ["bin", "&", ["id", "n"], ["num", 1]], ["num", 300]]]), None]]),
     ("bits-switch-then-block", [["a", U16, 4], ["b", U8, 4], ["c", U8, 4], ["d", U32, None]]),
     ("bits-exhaust-then-block", [["a", U8, 4], ["b", U8, 4], ["c", U8, 4], ["d", U16, None], ["e", U8, 8], ["f", U8, 1], ["g", U64, None]]),
     ("bits-full-then-same", [["a", U8, 8], ["b", U8, 1], ["c", U32, None]]),
